@@ -147,6 +147,11 @@ def scalar(rng, c=None):
     return v
 
 
+def anydim(rng, d, nd):
+    """The same dimension written the way user code writes it half of the time (dim=-1, transpose(-1, -2), ...)."""
+    return d - nd if nd > 0 and rng.random() < 0.45 else d
+
+
 def factorizations(n, rng):
     """A random shape with the same numel."""
     fs = []
@@ -194,7 +199,7 @@ def templates():
 
     @reg("flatten")
     def _(p, a):
-        s = int(p.rng.integers(0, max(1, a.ndim)))
+        s = anydim(p.rng, int(p.rng.integers(0, max(1, a.ndim))), a.ndim)
         return lambda: a.flatten(s)
 
     @reg("unsqueeze")
@@ -204,11 +209,12 @@ def templates():
 
     @reg("squeeze")
     def _(p, a):
-        return (lambda: a.squeeze()) if p.rng.random() < 0.5 else (lambda: a.squeeze(int(p.rng.integers(0, max(1, a.ndim)))))
+        sd = anydim(p.rng, int(p.rng.integers(0, max(1, a.ndim))), a.ndim)
+        return (lambda: a.squeeze()) if p.rng.random() < 0.5 else (lambda: a.squeeze(sd))
 
     @reg("transpose")
     def _(p, a):
-        i, j = (int(v) for v in p.rng.integers(0, max(1, a.ndim), 2))
+        i, j = (anydim(p.rng, int(v), a.ndim) for v in p.rng.integers(0, max(1, a.ndim), 2))
         return lambda: a.transpose(i, j)
 
     @reg("t")
@@ -224,11 +230,16 @@ def templates():
     def _(p, a):
         d = int(p.rng.integers(0, max(1, a.ndim)))
         i = int(p.rng.integers(0, max(1, a.shape[d] if a.ndim else 1)))
+        if a.ndim and p.rng.random() < 0.3:
+            i -= a.shape[d]  # negative index
+        d = anydim(p.rng, d, a.ndim)
         return lambda: a.select(d, i)
 
     @reg("getitem_int")
     def _(p, a):
         i = int(p.rng.integers(0, max(1, a.shape[0] if a.ndim else 1)))
+        if a.ndim and p.rng.random() < 0.3:
+            i -= a.shape[0]
         return lambda: a[i]
 
     @reg("getitem_slice")
@@ -251,6 +262,7 @@ def templates():
     def _(p, a):
         d = int(p.rng.integers(0, max(1, a.ndim)))
         idx = torch.from_numpy(p.rng.integers(0, max(1, a.shape[d] if a.ndim else 1), size=2))
+        d = anydim(p.rng, d, a.ndim)
         return lambda: a.index_select(d, idx)
 
     @reg("expand")
@@ -271,19 +283,19 @@ def templates():
         b = p.sibling(a)
         if hasattr(a, "qtype") and getattr(a, "axis", None) is not None and p.rng.random() < 0.35:
             b = a.clone() if p.rng.random() < 0.5 else a  # identical per-axis scales, every dim (the kept axis included)
-        d = int(p.rng.integers(0, max(1, a.ndim)))
+        d = anydim(p.rng, int(p.rng.integers(0, max(1, a.ndim))), a.ndim)
         return lambda: torch.cat([a, b], dim=d)
 
     @reg("cat3")
     def _(p, a):
         b, c = p.sibling(a), p.sibling(a, same_scale=True)
-        d = int(p.rng.integers(0, max(1, a.ndim)))
+        d = anydim(p.rng, int(p.rng.integers(0, max(1, a.ndim))), a.ndim)
         return lambda: torch.cat([a, b, c], dim=d)
 
     @reg("stack2")
     def _(p, a):
         b = p.sibling(a)
-        d = int(p.rng.integers(0, a.ndim + 1))
+        d = anydim(p.rng, int(p.rng.integers(0, a.ndim + 1)), a.ndim + 1)
         return lambda: torch.stack([a, b], dim=d)
 
     @reg("stack3")
@@ -295,11 +307,12 @@ def templates():
     def _(p, a):
         d = int(p.rng.integers(0, max(1, a.ndim)))
         k = int(p.rng.integers(1, max(2, (a.shape[d] if a.ndim else 1))))
+        d = anydim(p.rng, d, a.ndim)
         return lambda: a.split(k, dim=d)
 
     @reg("chunk")
     def _(p, a):
-        d = int(p.rng.integers(0, max(1, a.ndim)))
+        d = anydim(p.rng, int(p.rng.integers(0, max(1, a.ndim))), a.ndim)
         return lambda: a.chunk(2, dim=d)
 
     @reg("clone")
@@ -428,7 +441,7 @@ def templates():
 
     @reg("sum")
     def _(p, a):
-        return (lambda: a.sum()) if p.rng.random() < 0.4 else (lambda: a.sum(dim=int(p.rng.integers(0, max(1, a.ndim)))))
+        return (lambda: a.sum()) if p.rng.random() < 0.4 else (lambda: a.sum(dim=anydim(p.rng, int(p.rng.integers(0, max(1, a.ndim))), a.ndim)))
 
     @reg("mean")
     def _(p, a):
@@ -459,6 +472,82 @@ def templates():
     def _(p, a):
         tgt = torch.from_numpy(p.rng.integers(0, max(1, a.shape[-1]), size=(a.shape[0],))) if a.ndim == 2 else None
         return lambda: F.cross_entropy(a, tgt)
+
+    # ---- wide pools: everything else the dispatch monitor knows how to judge, dims written both ways
+    @reg("pool_move")
+    def _(p, a):
+        r = p.rng
+        nd = max(1, a.ndim)
+        d = int(r.integers(0, nd))
+        n = a.shape[d] if a.ndim else 1
+        dd, d2 = anydim(r, d, a.ndim), anydim(r, int(r.integers(0, nd)), a.ndim)
+        s0 = int(r.integers(0, max(1, n)))
+        ln = int(r.integers(1, max(2, n - s0 + 1)))
+        idx = torch.zeros(tuple(a.shape), dtype=torch.int64)
+        mask = torch.as_tensor(np.asarray(r.random(tuple(a.shape)) < 0.5))
+        fl = torch.from_numpy(r.integers(0, max(1, a.numel()), size=3))
+        progs = [
+            ("narrow", lambda: a.narrow(dd, s0, ln)), ("unbind", lambda: a.unbind(dd)), ("view_as", lambda: a.view_as(torch.empty(a.shape))),
+            ("reshape_as", lambda: a.reshape_as(torch.empty(a.numel()))), ("unflatten", lambda: a.unflatten(dd, (1, n))),
+            ("movedim", lambda: a.movedim(dd, d2)), ("swapaxes", lambda: a.swapaxes(dd, d2)), ("concat", lambda: torch.concat([a, a], dd)),
+            ("mT", lambda: a.mT), ("T", lambda: a.T if a.ndim == 2 else a.mT), ("tensor_split", lambda: a.tensor_split(2, dd)),
+            ("repeat", lambda: a.repeat(*([2] + [1] * (a.ndim - 1)))), ("tile", lambda: a.tile((2,))), ("flip", lambda: a.flip(dd)),
+            ("roll", lambda: a.roll(1, dd)), ("gather", lambda: a.gather(dd, idx)), ("take", lambda: a.take(fl)),
+            ("masked_select", lambda: a.masked_select(mask)), ("diagonal", lambda: a.diagonal()), ("tril", lambda: a.tril()),
+            ("triu", lambda: a.triu()), ("expand_as", lambda: a.unsqueeze(0).expand_as(torch.empty((2,) + tuple(a.shape)))),
+            ("hsplit", lambda: a.hsplit(1)), ("vsplit", lambda: a.vsplit(1)),
+        ]
+        name, f = progs[int(r.integers(len(progs)))]
+        p.note = name
+        return f
+
+    @reg("pool_pass")
+    def _(p, a):
+        r = p.rng
+        nd = max(1, a.ndim)
+        dd = anydim(r, int(r.integers(0, nd)), a.ndim)
+        b = p.sibling(a)
+        progs = [
+            ("sigmoid", lambda: torch.sigmoid(a)), ("gelu", lambda: F.gelu(a)), ("silu", lambda: F.silu(a)), ("tanh", lambda: torch.tanh(a)),
+            ("abs", lambda: a.abs()), ("amin", lambda: a.amin(dd)), ("max", lambda: a.max()), ("max_dim", lambda: a.max(dd)),
+            ("min", lambda: a.min(dd)), ("clamp", lambda: a.clamp(-0.5, 0.5)), ("square", lambda: a.square()), ("pow", lambda: a ** 2),
+            ("norm", lambda: a.norm()), ("var", lambda: a.var()), ("std", lambda: a.std(dd)), ("argmax", lambda: a.argmax(dd)),
+            ("argmin", lambda: a.argmin()), ("sort", lambda: a.sort(dd, stable=True)), ("isfinite", lambda: torch.isfinite(a)),
+            ("isnan", lambda: torch.isnan(a)), ("sin", lambda: torch.sin(a)), ("cos", lambda: a.cos()), ("erf", lambda: torch.erf(a)),
+            ("hardtanh", lambda: F.hardtanh(a)), ("leaky_relu", lambda: F.leaky_relu(a)), ("elu", lambda: F.elu(a)),
+            ("dropout", lambda: F.dropout(a, 0.5, training=False)), ("maximum", lambda: torch.maximum(a, b)),
+            ("minimum", lambda: torch.minimum(b, a)), ("cumsum", lambda: a.cumsum(dd)), ("any", lambda: a.any()), ("all", lambda: a.all()),
+            ("sign", lambda: a.sign()), ("floor", lambda: a.floor()), ("ceil", lambda: a.ceil()), ("round", lambda: a.round()),
+            ("mse_loss", lambda: F.mse_loss(a, b)), ("l1_loss", lambda: F.l1_loss(a, b)), ("softplus", lambda: F.softplus(a)),
+            ("hardswish", lambda: F.hardswish(a)), ("hardsigmoid", lambda: F.hardsigmoid(a)), ("mish", lambda: F.mish(a)),
+            ("logsumexp", lambda: a.logsumexp(dd)), ("normalize", lambda: F.normalize(a, dim=dd)), ("rms_norm", lambda: F.rms_norm(a, a.shape[-1:])),
+            ("avg_pool2d", lambda: F.avg_pool2d(a, 1)), ("max_pool2d", lambda: F.max_pool2d(a, 1)),
+            ("adaptive_avg_pool2d", lambda: F.adaptive_avg_pool2d(a, 1)), ("equal", lambda: torch.equal(a, a)),
+            ("allclose", lambda: torch.allclose(a, b)), ("numel", lambda: a.numel()), ("eq", lambda: a == b), ("ne", lambda: a != b),
+            ("ge", lambda: a >= b), ("le", lambda: a <= 0), ("prod", lambda: a.prod(dd)), ("amax_neg", lambda: a.amax(dd)),
+            ("mean_dim", lambda: a.mean(dd)), ("sum_keep", lambda: a.sum(dd, keepdim=True)),
+        ]
+        name, f = progs[int(r.integers(len(progs)))]
+        p.note = name
+        return f
+
+    @reg("pool_contract")
+    def _(p, a):
+        r = p.rng
+        k = a.shape[-1] if a.ndim else 1
+        m = int(r.integers(1, 6))
+        w = p.randn((k, m))
+        v = p.randn((k,))
+        bias = p.randn((m,))
+        progs = [
+            ("einsum", lambda: torch.einsum("...k,km->...m", a, w)), ("addmm", lambda: torch.addmm(bias, a, w)),
+            ("mv", lambda: torch.mv(a, v)), ("inner", lambda: torch.inner(a, w.t())), ("dot", lambda: torch.dot(a.reshape(-1), a.reshape(-1))),
+            ("rmatmul", lambda: w.t() @ a.transpose(-1, -2) if a.ndim >= 2 else w.t() @ a),
+            ("baddbmm", lambda: torch.baddbmm(torch.zeros(a.shape[0], a.shape[1], m, dtype=a.dtype), a, w.expand(a.shape[0], k, m))),
+        ]
+        name, f = progs[int(r.integers(len(progs)))]
+        p.note = name
+        return f
 
     # ---- where / comparisons
     @reg("where")
